@@ -11,10 +11,10 @@ from mc.report import Report
 from oracles.smc_oracles import check_schedule
 
 LEVEL = "exploration"
-RULE = ("schedule-option grid (single-option sweeps + pairwise covering array in quick, full product in thorough) x "
+RULE = ("schedule-option grid (single-option sweeps + pairwise covering array in quick, full product in thorough; fixed schedules n=1..64/300, fixed schedules with a step cap, runs on a sampler object that already completed another run) x "
         "every environment behaviour with at most D deviations (D=2 quick, 3 thorough): initial population and the "
         "population returned by the kernel after each of the first 4 iterations are chosen from a menu of 5 log-weight "
-        "spreads (flat, 3, 1e3, 1e7, 1e9), resampling index tuples of the first 3 resamplings are enumerated; "
+        "spreads (flat, 3, 1e3, 1e7, 1e9; the initial population may also contain a zero-likelihood particle), resampling index tuples of the first 3 resamplings are enumerated; "
         "one evaluation = one complete run of the real sampler; non-trivial = run with more than one iteration or a "
         "non-flat population; states = (population, temperatures so far, iteration)")
 ASSUMPTIONS = [
